@@ -29,26 +29,14 @@ import proggen, langenc
 # two constructs the shared generator / encoder do not have (in-process extensions, see C18/XInterp.v):
 #   ("slice", e, a|None, b|None, c|None)   e[a:b:c]              -> EFilter F_slice e [a; b; c]
 #   ("setattr", x, attr, e)               {% set x.attr = e %}   -> SEmit (EFilter F_setattr e [EVar x])
-# and attribute names are interned (the nested report mentions them)
+# (attribute names: langenc.attr_id / attr_name, the numbering of Lang/Syntax.v::attr_str - the nested report
+#  mentions them and `m.key` looks the name up in a map)
 # ------------------------------------------------------------------------------------------------
 F_SLICE, F_SETATTR = 100, 101
 
 
-class AttrIntern(dict):
-    def __init__(self, base):
-        super().__init__(base)
-        self.rev = {v: k for k, v in base.items()}
-
-    def get(self, k, default=None):
-        if k not in self:
-            i = 200 + len(self)
-            self[k] = i
-            self.rev[i] = k
-        return self[k]
-
-
-if not isinstance(langenc.ATTRS, AttrIntern):
-    langenc.ATTRS = AttrIntern(langenc.ATTRS)
+if not getattr(langenc, "_c18_extended", False):
+    langenc._c18_extended = True
     _enc_expr, _enc_stmt = langenc.expr, langenc.stmt
     _src_expr, _src_stmt = proggen.expr_src, proggen.stmt_src
 
@@ -69,7 +57,10 @@ if not isinstance(langenc.ATTRS, AttrIntern):
         if e[0] == "selfcall":
             return "self." + e[1] + "()"
         if e[0] == "slice":
-            return proggen.expr_src(e[1]) + "[" + ":".join("" if b is None else proggen.expr_src(b) for b in e[2:5]) + "]"
+            base = proggen.expr_src(e[1])
+            if e[1][0] == "filter":          # `x|items[..]` does not parse: a subscript follows a primary only
+                base = "(" + base + ")"
+            return base + "[" + ":".join("" if b is None else proggen.expr_src(b) for b in e[2:5]) + "]"
         return _src_expr(e)
 
     def src_stmt(st):
@@ -275,6 +266,9 @@ def idents_in_expr(e, acc):
         acc.add(e[1]); [idents_in_expr(a, acc) for a in e[2]]; [idents_in_expr(v, acc) for _, v in e[3]]
     elif t == "slice":
         [idents_in_expr(b, acc) for b in e[1:5] if b is not None]
+    elif t == "map":
+        for k, v in e[1]:
+            idents_in_expr(k, acc); idents_in_expr(v, acc)
 
 
 def rename_expr(e, mp):
@@ -293,6 +287,7 @@ def rename_expr(e, mp):
     if t == "test": return ("test", e[1], R(e[2]), [R(a) for a in e[3]], e[4])
     if t == "call": return ("call", mp.get(e[1], e[1]), [R(a) for a in e[2]], [(k, R(v)) for k, v in e[3]])
     if t == "slice": return ("slice", R(e[1])) + tuple(None if b is None else R(b) for b in e[2:5])
+    if t == "map": return ("map", [(R(k), R(v)) for k, v in e[1]])
     return e
 
 
@@ -307,12 +302,13 @@ def rename_stmt(s, mp):
     B = lambda b: rename_body(b, mp)
     if t == "emit": return ("emit", E(s[1]))
     if t == "if": return ("if", [(E(c), B(b)) for c, b in s[1]], None if s[2] is None else B(s[2]))
+    T = lambda tg: N(tg) if isinstance(tg, str) else [N(x) for x in tg]       # a name or an unpacking pair
     if t == "for":
-        tg = N(s[1]) if isinstance(s[1], str) else [N(x) for x in s[1]]
+        tg = T(s[1])
         return ("for", tg, E(s[2]), None if s[3] is None else E(s[3]), B(s[4]), None if s[5] is None else B(s[5]), s[6])
-    if t == "set": return ("set", N(s[1]), E(s[2]))
+    if t == "set": return ("set", T(s[1]), E(s[2]))
     if t == "setblock": return ("setblock", N(s[1]), B(s[2]), s[3])
-    if t == "with": return ("with", [(N(n), E(e)) for n, e in s[1]], B(s[2]))
+    if t == "with": return ("with", [(T(n), E(e)) for n, e in s[1]], B(s[2]))
     if t == "macro": return ("macro", N(s[1]), [N(p) for p in s[2]], [(N(p), E(d)) for p, d in s[3]], B(s[4]))
     if t == "callblock": return ("callblock", N(s[1]), [E(a) for a in s[2]], B(s[3]))
     if t == "filterblock": return ("filterblock", s[1], B(s[2]))
@@ -321,14 +317,18 @@ def rename_stmt(s, mp):
     return s
 
 
+def target_names(tg):
+    return [tg] if isinstance(tg, str) else list(tg)
+
+
 def bound_names(body, acc):
     for s in body:
         t = s[0]
-        if t == "for":
-            if isinstance(s[1], str): acc.add(s[1])
-            else: acc.update(s[1])
-        elif t in ("set", "setblock"): acc.add(s[1])
-        elif t == "with": acc.update(n for n, _ in s[1])
+        if t in ("for", "set"): acc.update(target_names(s[1]))
+        elif t == "setblock": acc.add(s[1])
+        elif t == "with":
+            for n, _ in s[1]:
+                acc.update(target_names(n))
         elif t == "macro": acc.add(s[1]); acc.update(s[2])
         for b in proggen._sub_bodies(s):
             bound_names(b, acc)
@@ -355,7 +355,7 @@ def read_names(body, acc):
 
 
 KIND_POOL = {"i": ["n", "m", "undef0"], "w": ["n", "m", "undef0"], "p": ["n", "m", "undef0"],
-             "b": ["s", "undef0"], "s": ["n", "m", "s", "undef0"]}
+             "b": ["s", "undef0"], "s": ["n", "m", "s", "undef0"], "u": ["undef0"]}      # u: unpacking targets
 
 
 def capture_mutation(body, rng):
@@ -511,8 +511,64 @@ def decode_model(m, N):
     nn = rest[0]; rest = rest[1:]; nested = []
     for _ in range(nn):
         v, k = rest[0], rest[1]; attrs = rest[2:2 + k]; rest = rest[2 + k:]
-        nested.append(".".join([N.rev.get(v, "#%d" % v)] + [langenc.ATTRS.rev.get(a, "#%d" % a) for a in attrs]))
+        nested.append(".".join([N.rev.get(v, "#%d" % v)] + [langenc.attr_name(a) for a in attrs]))
     return {"status": st, "text": text, "code": code, "asks": names(asks), "und": names(und), "old": names(old), "nested": sorted(set(nested))}
+
+
+def sub_exprs(e):
+    t = e[0]
+    if t == "list": return list(e[1])
+    if t in ("neg", "not"): return [e[1]]
+    if t == "bin": return [e[2], e[3]]
+    if t == "cmp": return [e[1]] + [r for _, r in e[2]]
+    if t in ("and", "or", "item"): return [e[1], e[2]]
+    if t == "ifexpr": return [x for x in e[1:4] if x is not None]
+    if t == "attr": return [e[1]]
+    if t in ("filter", "test"): return [e[2]] + list(e[3])
+    if t == "call": return list(e[2]) + [v for _, v in e[3]]
+    if t == "slice": return [x for x in e[1:5] if x is not None]
+    if t == "map": return [x for kv in e[1] for x in kv]
+    return []
+
+
+def stmt_exprs(s):
+    t = s[0]
+    if t == "emit": return [s[1]]
+    if t == "if": return [c for c, _ in s[1]]
+    if t == "for": return [s[2]] + ([s[3]] if s[3] is not None else [])
+    if t == "set": return [s[2]]
+    if t == "with": return [e for _, e in s[1]]
+    if t == "macro": return [d for _, d in s[3]]
+    if t == "callblock": return list(s[2])
+    if t == "autoescape": return [s[1]]
+    if t == "setattr": return [s[3]]
+    return []
+
+
+MAP_VARS = ("d", "e")       # the maps of proggen.default_context
+
+
+def features_in(body, acc):
+    """which of the Lang v2 constructs a program contains (maps, unpacking assignments)"""
+    def ex(e, over_map=False):
+        t = e[0]
+        if t == "map": acc.add("map_literal")
+        if t == "var" and e[1] in MAP_VARS: acc.add("map_variable")
+        if t in ("attr", "item") and (e[1][0] == "map" or (e[1][0] == "var" and e[1][1] in MAP_VARS)): acc.add("map_lookup")
+        if t == "filter" and e[1] == "items": acc.add("items_filter")
+        if t == "test" and e[1] == "mapping": acc.add("mapping_test")
+        for x in sub_exprs(e):
+            ex(x)
+    for s in body:
+        t = s[0]
+        for e in stmt_exprs(s):
+            ex(e)
+        if t == "for" and (s[2][0] == "map" or (s[2][0] == "var" and s[2][1] in MAP_VARS) or (s[2][0] == "filter" and s[2][1] == "items")):
+            acc.add("loop_over_map")
+        if t == "set" and not isinstance(s[1], str): acc.add("set_unpack")
+        if t == "with" and any(not isinstance(n, str) for n, _ in s[1]): acc.add("with_unpack")
+        for b in proggen._sub_bodies(s):
+            features_in(b, acc)
 
 
 def count_nodes(body):
@@ -540,9 +596,9 @@ def main():
         "the recording context object of harness/src/bin/c18.rs (Object::get_value) sees exactly the keys the engine asks the render context for"]
     chk.assumptions = [
         "single-file templates (no include/import/extends); renders with debug info off (Environment::set_debug(false)) - see known finding debug-info-lookups for the error-reporting path with debug info on",
-        "theorems: programs over Lang/Syntax.v (expressions incl. slices, if/elif/else, for with filter/else/break/continue, set, attribute assignment, set-block, with, macros with defaults/kwargs/caller, call blocks, filter blocks, autoescape), context values without macro objects, every outcome of the render (finished or failed; the model's own out-of-gas excluded)",
+        "theorems: programs over Lang/Syntax.v (expressions incl. slices and map literals / lookups, if/elif/else, for with filter/else/break/continue (over lists, strings, maps), set and with (also unpacking into two names), attribute assignment, set-block, macros with defaults/kwargs/caller, call blocks, filter blocks, autoescape), context values without macro objects, every outcome of the render (finished or failed; the model's own out-of-gas excluded)",
         "the model has no namespace objects: an attribute assignment always fails after evaluating its operands, as the engine does for every target that is not a namespace; slices select like Python on lists and strings (C09)",
-        "constructs outside the Coq model (tuples/maps, tests/filters with arguments other than the modelled ones, do, blocks, self/super, namespace(), splats) are covered on the implementation only, by the construct-level search"]
+        "constructs outside the Coq model (tuples, tests/filters with arguments other than the modelled ones, do, blocks, self/super, namespace(), splats) are covered on the implementation only, by the construct-level search"]
     okm, blog = build_models("C18")
     proofs_ok = chk.run_proofs()
     okc, clog = cargo_build(["c18"], release=False)
@@ -660,8 +716,14 @@ def main():
     fail_bad = []        # failing renders, same error kind, different lookups
     old_differs = 0
     kinds = collections.Counter()
+    v2 = collections.Counter()          # programs that contain the constructs of Lang v2 (maps, unpacking)
     for body, _ in progs:
         kinds_in(body, kinds)
+        fs = set()
+        features_in(body, fs)
+        v2.update(fs)
+        if fs & {"map_literal", "map_variable", "map_lookup", "items_filter", "loop_over_map"}: v2["any_map"] += 1
+        if fs & {"set_unpack", "with_unpack"}: v2["any_unpack"] += 1
     for rel in (False, True):
         impl = run_c18(preqs, release=rel)
         impl_dbg = run_c18([dict(r, debug=True) for r in preqs], release=rel) if not rel else None
@@ -746,7 +808,7 @@ def main():
                        "leg 2: typed random programs with capture mutation and extension mutation (slices, attribute/item chains, attribute assignments) x random contexts in debug and release (and once with debug info on), "
                        "compared with the extracted flat and nested analyses and with the lookups of the extracted error-carrying interpreter, for finished and for failing renders; non-trivial = distinct (template, context) that compiled and whose render asked the context for at least one key (programs: >= 3 statement nodes)")
     chk.cov["samples"] = [cc[0][4], cc[len(cc) // 3][4], cc[2 * len(cc) // 3][4], preqs[0]["tpl"], preqs[len(preqs) // 2]["tpl"]]
-    chk.cov["distribution"] = {"outcomes": dict(hist), "constructs_in_programs": dict(kinds)}
+    chk.cov["distribution"] = {"outcomes": dict(hist), "constructs_in_programs": dict(kinds), "programs_with_v2_constructs": dict(v2)}
     chk.cov["programs"] = len(progs)
     chk.cov["disagreements_checked"] = len(corr_bad) + len(direct)
     chk.cov["program_leg"] = {"n": len(progs), "pre_fix_tracker_reports_differently": old_differs, "direct_violations": len(direct),
